@@ -7,7 +7,7 @@ oracle for the text is the lexer model built from the `#[token]`/`#[regex]` attr
 semantic actions."""
 import re
 
-from facts import (AnchorMissing, callee, lit_value, nodes, pat_alternatives, pat_head, pat_variants, peel, short, unblock,
+from facts import (AnchorMissing, callee, expr_path, lit_value, nodes, pat_alternatives, pat_head, pat_variants, peel, short, unblock,
                    walk)
 from shared import TI, arm_rows, panics_in, the_match, variant_paths
 from c11_util import (hash_iteration_sites, LexError, Scopes, build_tokenizer, check_quoting_chain, check_quoting_semantic, fmt_calls, is_str_ty, keywords_table,
@@ -358,6 +358,38 @@ def run(chk, facts, tier, only=None):
                        ok_detail="every sample character is kept only if it is in [A-Za-z0-9], otherwise replaced by `_`")
         except _NE2 as e_:
             raise AnchorMissing(f"TypeName::get: the sanitising closure is outside the evaluable fragment: {e_}")
+        # ... and the name made up for the second, third, … Rust type of one name (`format!("{name}_{v}")`) must itself be looked up in, or
+        # registered with, the table of names in use: otherwise it can coincide with the name of another exported type (`A`, `A`, `A_1`).
+        fmts = [x for x in walk(tn["body"]) if x.get("k") == "call" and (callee(x) or "").endswith("alloc::fmt::format")]
+        if not fmts:
+            chk.ok("export-name:disambiguated-name-is-fresh", "no made-up name (no format! in TypeName::get)", nontrivial=False)
+        else:
+            def mentions(e_, names):
+                return any((y.get("k") == "call" and (callee(y) or "").endswith("alloc::fmt::format")) or
+                           (y.get("k") == "path" and (y.get("res") or {}).get("kind") == "Local" and y["res"]["path"] in names) for y in walk(e_))
+            tainted = set()
+            grew = True
+            while grew:
+                grew = False
+                for st in nodes(tn["body"], "slet"):
+                    nm = st["pat"].get("n") if st["pat"].get("k") == "bind" else None
+                    if nm and nm not in tainted and st.get("init") is not None and mentions(st["init"], tainted):
+                        tainted.add(nm)
+                        grew = True
+                for st in nodes(tn["body"], "assign"):
+                    tgt = unblock(st["a"])
+                    nm = tgt["res"]["path"] if tgt.get("k") == "path" and (tgt.get("res") or {}).get("kind") == "Local" else None
+                    if nm and nm not in tainted and mentions(st["b"], tainted):
+                        tainted.add(nm)
+                        grew = True
+            consulted = [x for x in walk(tn["body"]) if x.get("k") == "mcall" and x["m"] in ("contains_key", "get", "get_mut", "entry", "insert", "contains")
+                         and (expr_path(x["recv"]) or "").startswith("self.") and x.get("args") and mentions(x["args"][0], tainted)]
+            chk.expect(bool(consulted), "export-name:disambiguated-name-is-fresh",
+                       "TypeName::get makes up `<name>_<n>` for a further Rust type of the same name but never looks that string up in (or registers it "
+                       "with) its table of names: with Rust types `m1::A`, `m2::A` and `A_1` the second `A` and `A_1` are both exported as `A_1`, one "
+                       "definition overwrites the other and the exported interface is not the program's",
+                       where=f"{tn['span']['file']}:{fmts[0].get('ln')}",
+                       ok_detail=f"the made-up name is checked against / entered into {sorted({expr_path(x['recv']) for x in consulted})}")
         # names in the document: quoted through pp_text, or a type identifier at one of the known positions
         ALLOWED_RAW = {("pp_ty_inner", TI + "Var"), ("pp_class", TI + "Var"), ("pp_defs_plain", "closure"), ("pp_defs", "closure"),
                        ("pp_docs", "closure"), ("syntax::pp_ty", IT + "VarT"), ("syntax::pp_class", IT + "VarT"),
